@@ -327,7 +327,7 @@ pub fn catalogue() -> Vec<TMut> {
 /// contain standard and bare times, signed / unsigned values of several widths, octet strings).
 pub fn neighbourhood_bases() -> Vec<Vec<u8>> {
     let all = crate::gen::pinput::real_payloads();
-    let mut v = Vec::new();
+    let mut v = vec![crate::refmodel::sml::write(&crate::gen::smlfile::showcase_file()).bytes];
     if all.is_empty() {
         return v;
     }
@@ -364,6 +364,36 @@ pub fn neighbourhood(shard: usize, nshards: usize, f: &mut dyn FnMut(Vec<u8>, St
                     }
                 }
                 g += 1;
+            }
+        }
+    }
+}
+
+/// The complete single-byte neighbourhood of every type-length field: for each TLF byte of each
+/// base input (as located by the reference reader) every one of the 255 other values, the rest
+/// of the input unchanged, checksums recomputed with the grammar-independent scan. Covers every
+/// change of type bits, more-bit, length nibble and continuation byte of a single TLF.
+pub fn tlf_byte_neighbourhood(shard: usize, nshards: usize, f: &mut dyn FnMut(Vec<u8>, String) -> bool) {
+    let mut g = 0usize;
+    for (bi, base) in neighbourhood_bases().iter().enumerate() {
+        let spans = crate::refmodel::sml::read_events(base, true).tlfs;
+        for t in &spans {
+            for off in 0..t.n {
+                let pos = t.pos + off;
+                for v in 0..=255u8 {
+                    if v == base[pos] {
+                        continue;
+                    }
+                    if g % nshards == shard {
+                        let mut out = base.clone();
+                        out[pos] = v;
+                        crate::refmodel::sml::fix_crcs_scan(&mut out);
+                        if !f(out, format!("mutated[tlf-byte] base={} pos={} value={:02x} crc-fixed", bi, pos, v)) {
+                            return;
+                        }
+                    }
+                    g += 1;
+                }
             }
         }
     }
